@@ -143,6 +143,18 @@ Proof.
   destruct (N.leb_spec s (s + a)); [|lia]. destruct (N.leb_spec (s + a + (b - a)) e); cbn [andb]; lia.
 Qed.
 
+(* the open-ended forms: `..` is the view itself, `a..` and `..b` are the closed slices with the missing end filled in *)
+Theorem v_slice_opt_spec s e a b : s <= e ->
+  v_slice_opt s e None None = Ok (s, e) /\
+  v_slice_opt s e (Some a) None = v_slice s e a (e - s) /\
+  v_slice_opt s e None (Some b) = v_slice s e 0 b /\
+  v_slice_opt s e (Some a) (Some b) = v_slice s e a b.
+Proof.
+  intros L. unfold v_slice_opt. repeat split. unfold v_slice.
+  destruct (N.ltb_spec (e - s) 0); [lia|]. rewrite N.add_0_r, N.sub_0_r.
+  replace (s + (e - s)) with e by lia. rewrite !N.leb_refl. reflexivity.
+Qed.
+
 Theorem v_slice_compose s e a1 b1 a2 b2 s1 e1 s2 e2 :
   v_slice s e a1 b1 = Ok (s1, e1) -> v_slice s1 e1 a2 b2 = Ok (s2, e2) ->
   v_slice s e (a1 + a2) (a1 + b2) = Ok (s2, e2).
